@@ -235,12 +235,6 @@ struct Rules {
     return "";
   }
 
-  // situations in which the code cannot do anything but die (a null representative is dereferenced, a vector is
-  // indexed past its end): after three deaths in one process the remaining instances are counted, not executed
-  bool certain(const std::string& why) const {
-    return why == "target_class_is_the_empty_column" || why == "row_beyond_swap_vectors";
-  }
-
   Dense combine(const Dense& target, const Dense& source, int kt, int ks) const {
     Dense r(U.R);
     for (int i = 0; i < U.R; ++i) r[i] = U.mod((long long)kt * target[i] + (long long)ks * source[i]);
